@@ -99,7 +99,7 @@ def gen(rng, n):
     steps = []
     kinds = ["none"] * 4
     libof = [""] * 4          # which library the dl object / symbol in a slot belongs to (generator's own mirror)
-    vals = ["", "x", "a b", "=;", "\t", "\xe4\xf6", "--x", "very " * 20, "\x01\x7f"]
+    vals = ["", "x", "a b", "=;", "\t", "\xe4\xf6", "--x", "very " * 20, "\x01\x7f", "L" * 255, "M" * 256, "long " * 1000]
     for _ in range(n):
         r = rng.random()
         h = rng.randint(1, 4)
